@@ -422,6 +422,63 @@ func (g *GateResult) atomOf(cond ssa.Value) (*atom, bool) {
 		}
 	}
 	if call, ok := cond.(*ssa.Call); ok && g.InModule != nil {
+		// inRange(n, 16, 32, 4): a predicate of the module with several integer parameters, all
+		// but one of them constants at this call site
+		if f := call.Call.StaticCallee(); f != nil && g.InModule(f) && len(call.Call.Args) >= 2 && len(call.Call.Args) <= 6 && len(f.Params) == len(call.Call.Args) && len(f.Blocks) > 0 {
+			fixed := map[int]int64{}
+			si := -1
+			okArgs := true
+			for i, arg := range call.Call.Args {
+				if !isIntType(f.Params[i].Type()) {
+					okArgs = false
+					break
+				}
+				if c, isC := intConst(arg); isC {
+					fixed[i] = c
+				} else if si < 0 {
+					si = i
+				} else {
+					okArgs = false
+				}
+			}
+			if okArgs && si >= 0 {
+				if e := g.derive(call.Call.Args[si], 0); e != nil && len(e.ops) == 0 {
+					semPredMu.Lock()
+					sp := semPredFixedByProg[f.Prog]
+					semPredMu.Unlock()
+					if sp != nil {
+						if g.predsSlice == nil {
+							g.predsSlice = map[string]*predSets{}
+						}
+						mk := f.String() + "@" + strconv.Itoa(si)
+						for i := range call.Call.Args {
+							if c, ok := fixed[i]; ok {
+								mk += "," + strconv.FormatInt(c, 10)
+							} else {
+								mk += ",_"
+							}
+						}
+						ps, done := g.predsSlice[mk]
+						if !done {
+							ps = sp(f, g.Bits, fixed)
+							g.predsSlice[mk] = ps
+							if ps != nil {
+								for tg := range ps.Relied {
+									g.Relied[tg] = true
+								}
+							}
+						}
+						if ps != nil {
+							a := &atom{e: e, op: token.EQL, pred: ps}
+							if neg {
+								a.op = token.NEQ
+							}
+							return a, true
+						}
+					}
+				}
+			}
+		}
 		// helper(<literal of integer constants>, e) or helper(e, <literal>): a two-argument
 		// predicate of the module with its table fixed at this call site
 		if f := call.Call.StaticCallee(); f != nil && g.InModule(f) && len(call.Call.Args) == 2 && len(f.Params) == 2 && len(f.Blocks) > 0 {
@@ -558,6 +615,48 @@ func (g *GateResult) atomOf(cond ssa.Value) (*atom, bool) {
 				}
 			}
 			return nil, false
+		}
+	}
+	// `sizeFor(n) == -1`: an integer-valued helper of the module compared with a constant
+	{
+		lhs, rhs, op := b.X, b.Y, b.Op
+		if _, isC := intConst(lhs); isC {
+			lhs, rhs, op = rhs, lhs, flipOp(op)
+		}
+		if c, isC := intConst(rhs); isC && g.InModule != nil {
+			if call, ok := lhs.(*ssa.Call); ok {
+				if f := call.Call.StaticCallee(); f != nil && g.InModule(f) && len(call.Call.Args) == 1 && len(f.Params) == 1 && len(f.Blocks) > 0 &&
+					isIntType(f.Params[0].Type()) && f.Signature.Results().Len() == 1 && isIntType(f.Signature.Results().At(0).Type()) {
+					if e := g.derive(call.Call.Args[0], 0); e != nil && len(e.ops) == 0 {
+						semPredMu.Lock()
+						sp := semPredCmpByProg[f.Prog]
+						semPredMu.Unlock()
+						if sp != nil {
+							if g.predsSlice == nil {
+								g.predsSlice = map[string]*predSets{}
+							}
+							mk := f.String() + " " + op.String() + " " + strconv.FormatInt(c, 10)
+							ps, done := g.predsSlice[mk]
+							if !done {
+								ps = sp(f, g.Bits, op, c)
+								g.predsSlice[mk] = ps
+								if ps != nil {
+									for tg := range ps.Relied {
+										g.Relied[tg] = true
+									}
+								}
+							}
+							if ps != nil {
+								a := &atom{e: e, op: token.EQL, pred: ps}
+								if neg {
+									a.op = token.NEQ
+								}
+								return a, true
+							}
+						}
+					}
+				}
+			}
 		}
 	}
 	var a *atom
@@ -1129,6 +1228,8 @@ var (
 	semPredByProg = map[*ssa.Program]func(f *ssa.Function, bits int) *predSets{}
 	// the same for helpers that also take a slice of integer constants: `contains(list, n)`
 	semPredSliceByProg = map[*ssa.Program]func(f *ssa.Function, bits int, slice []int64) *predSets{}
+	semPredCmpByProg   = map[*ssa.Program]func(f *ssa.Function, bits int, op token.Token, c int64) *predSets{}
+	semPredFixedByProg = map[*ssa.Program]func(f *ssa.Function, bits int, fixed map[int]int64) *predSets{}
 )
 
 func semPredOf(f *ssa.Function) func(f *ssa.Function, bits int) *predSets {
